@@ -8,7 +8,7 @@ func init() {
 	Runners["C04"] = fileRunner(RunC04)
 	harness.Specs["C04"] = &harness.PropSpec{
 		ID: "C04", Test: "TestC04", Kind: "file", Level: "exploration",
-		Quick: 24000, Thorough: 1500000,
+		Quick: 24000, Thorough: 450000,
 		Rule: "generated file programs (bounded/unbounded, InitMetaArea 0..16, overflow area on/off, rollbacks, reopens); every id returned by " +
 			"Alloc/AllocN is checked against the model's committed and in-transaction live sets and the file's internal page sets (hook snapshot); after " +
 			"every item the partition live/data-free/meta-free/meta-in-use must be pairwise disjoint and live contents are re-verified; non-trivial = " +
